@@ -169,6 +169,8 @@ var litCases = []litCase{
 	{"0x1F", token.NUM}, {"0xabc", token.NUM}, {"0b101", token.NUM}, {"0o17", token.NUM}, {"0x0", token.NUM}, {"10.25", token.NUM},
 	{`"a\"b"`, token.STR}, {`""`, token.STR}, {`"é晓\né"`, token.STR}, {"`raw \"x\" \\`", token.STR},
 	{"'2020-01-01 10:00:00'", token.TIME}, {"''", token.TIME},
+	{"`a\nb`", token.STR}, {"\"a\nb\"", token.STR}, {"'x\ny'", token.TIME}, {"`\n\n`", token.STR},
+	{"true1", token.SYM}, {"false_", token.SYM}, {"and2", token.SYM}, {"not9", token.SYM}, {"or_", token.SYM}, {"true晓", token.SYM},
 	{"true", token.TRUE}, {"false", token.FALSE}, {"名前_1", token.SYM}, {"_a", token.SYM}, {"truex", token.SYM}, {"falsey", token.SYM}, {"nothing", token.SYM},
 }
 
@@ -199,5 +201,27 @@ func H09_literals() {
 		sv.Logf("%q lexed into %d tokens", src, len(toks))
 	}
 	sv.Assert("one-token-per-literal", len(toks) == want && toks[idx].Lexeme == c.src && toks[idx].Kind == c.kind)
+	checkTokens(ops, src, toks)
+}
+
+// H09_suffix: a keyword-like word, literal opener or operator followed by one
+// or two arbitrary positions still satisfies every token invariant (whole
+// words, longest match, positions after embedded newlines).
+func H09_suffix() {
+	heads := []string{"true", "false", "and", "not", "or", "as", "1", "1.", "0x", "\"a", "`a", "'a", "a", ".", "?", "=", "=="}
+	ops := lexOps(sv.Choice("ops", 5))
+	head := heads[sv.Choice("head", len(heads))]
+	src := head + anyInput(1+sv.Choice("len", 2))
+	if sv.Choice("trailer", 2) == 1 {
+		src += " z"
+	}
+	var toks []*token.Token
+	cls := sv.Outcome(func() { toks = lexer.NewLexer(ops).Lex(src) })
+	if cls != "ok" {
+		sv.Reach("rejected")
+		sv.Assert("rejection-is-a-syntax-error", hasPrefix(cls, "assert:syntax error"))
+		return
+	}
+	sv.Reach("lexed")
 	checkTokens(ops, src, toks)
 }
